@@ -32,6 +32,8 @@ type CaseHist struct {
 	Fresh     []bool     `json:"fresh"`     // per resume, cycled: use a freshly compiled runnable
 	NoID      bool       `json:"noid,omitempty"`
 	Modifier  bool       `json:"modifier,omitempty"` // every resume carries a StateModifier (C11)
+	// FailSet > 0 (C06): the FailSet-th write to the checkpoint store fails; the history ends with that call
+	FailSet int `json:"failset,omitempty"`
 }
 
 // addInterrupts decorates a spec (recursively) with interrupt points and rerun nodes.
@@ -174,6 +176,7 @@ type callRec struct {
 	Info        *compose.InterruptInfo
 	Out         any
 	Sets        int
+	SetFailed   bool // the store refused a write during this call (injected fault)
 }
 
 type histRun struct {
@@ -205,6 +208,7 @@ func runHistory(c CaseHist) (*histRun, *vkit.Failure) {
 	store := gkit.NewByteStore()
 	callIdx := 0
 	store.Call = &callIdx
+	store.FailSet = c.FailSet
 	bo := &gkit.BuildOpts{Store: store}
 	r, err := gkit.Compile(ctx, c.Spec, bo)
 	if err != nil {
@@ -246,6 +250,7 @@ func runHistory(c CaseHist) (*histRun, *vkit.Failure) {
 		rec.Err = rerr
 		rec.Out = out
 		rec.Sets = store.SetsInCall(callIdx)
+		rec.SetFailed = store.FailedInCall(callIdx) > 0
 		if rerr != nil {
 			if info, ok := compose.ExtractInterruptInfo(rerr); ok {
 				rec.Interrupted = true
@@ -253,6 +258,9 @@ func runHistory(c CaseHist) (*histRun, *vkit.Failure) {
 			}
 		}
 		h.calls = append(h.calls, rec)
+		if rec.SetFailed {
+			break // the checkpoint of this call does not exist: nothing to resume
+		}
 		if rerr == nil {
 			h.finished = true
 			h.finalOut = out
@@ -420,6 +428,18 @@ func checkHistory(c CaseHist, which string) (*vkit.Failure, vkit.Meta) {
 		// ---------------- C06: invariants over the history ----------------
 		c06 := func() *vkit.Failure {
 			for _, cr := range h.calls {
+				if cr.SetFailed {
+					// the checkpoint could not be written: "a checkpoint is written under [the id] exactly when such an
+					// error is returned" - so no interrupt error may be returned, the call reports the store's failure
+					m.Labels = append(m.Labels, "checkpoint-store-write-fails")
+					if cr.Interrupted {
+						return vkit.Failf("interrupt-returned-without-checkpoint", "call %d returned an interrupt error although the write of its checkpoint failed (nothing is stored under the id)", cr.Idx)
+					}
+					if cr.Err == nil {
+						return vkit.Failf("interrupt-returned-without-checkpoint", "call %d returned a result although it had to interrupt and the write of its checkpoint failed", cr.Idx)
+					}
+					return nil
+				}
 				if cr.Err != nil && !cr.Interrupted {
 					// No node fails (the uninterrupted run succeeds), so a run that ends early was stopped by an
 					// interrupt: when the stopped call itself made progress (or is the first call) the interrupt
@@ -686,7 +706,7 @@ func checkHistory(c CaseHist, which string) (*vkit.Failure, vkit.Meta) {
 		// ---------------- C05: equivalence with the uninterrupted run ----------------
 		c05 := func() *vkit.Failure {
 			last := h.calls[len(h.calls)-1]
-			if c.NoID {
+			if c.NoID || last.SetFailed {
 				return nil // nothing to resume
 			}
 			if c.Modifier && c.Spec.State {
@@ -783,7 +803,12 @@ func checkHistory(c CaseHist, which string) (*vkit.Failure, vkit.Meta) {
 						delete(hc, k)
 					}
 				}
-				_ = mods
+				for k := range mods {
+					// a caller-supplied modification is applied to the state of the graph whose path it was called with
+					if want := "mod:" + strings.TrimSuffix(gp, "/"); k != want {
+						return &vkit.Failure{Kind: "state-modifier-wrong-path", Sig: "state-modifier-wrong-path", Msg: fmt.Sprintf("the state of graph %q records a StateModifier call made with path %q", gp, strings.TrimPrefix(k, "mod:"))}
+					}
+				}
 				if fmt.Sprint(sortedMap(bc)) != fmt.Sprint(sortedMap(hc)) {
 					return &vkit.Failure{Kind: "resume-state-differs", Sig: "resume-state-differs", Msg: fmt.Sprintf("state counters of graph %q after the interrupted history: %v, uninterrupted: %v", gp, sortedMap(hc), sortedMap(bc))}
 				}
@@ -872,9 +897,17 @@ func TestC05Replay(t *testing.T) {
 	vkit.Replay(t, "C05", func(c CaseHist) (*vkit.Failure, vkit.Meta) { return checkHistory(c, "C05") })
 }
 
+func genHistC06(t *rapid.T) CaseHist {
+	c := genHist(t)
+	if !c.NoID && rapid.IntRange(0, 5).Draw(t, "failSet") == 0 {
+		c.FailSet = rapid.IntRange(1, 3).Draw(t, "failSetAt")
+	}
+	return c
+}
+
 func TestC06(t *testing.T) {
 	rec := vkit.NewRecorder("C06")
-	vkit.Prop(t, rec, genHist, func(c CaseHist) (*vkit.Failure, vkit.Meta) { return checkHistory(c, "C06") })
+	vkit.Prop(t, rec, genHistC06, func(c CaseHist) (*vkit.Failure, vkit.Meta) { return checkHistory(c, "C06") })
 }
 
 func TestC06Replay(t *testing.T) {
